@@ -203,6 +203,16 @@ def parse_value(s: str):
     f = s.split(",")
     if f[0] == "T":
         return make_tensor(f[1], parse_dims(f[2]))
+    # values that are neither None nor an array, for positions without annotation — some of them sequences themselves (a shape, an empty
+    # tuple, a tuple / list OF arrays): they are one value of one position, whatever they contain
+    if s == "XT":
+        return (2, 3)
+    if s == "XE":
+        return ()
+    if s == "XA":
+        return (make_tensor("0:float32", (2,)), make_tensor("0:float32", (2,)))
+    if s == "XL":
+        return [make_tensor("0:float32", (3,))]
     return 5
 
 
@@ -240,8 +250,17 @@ def _msg_ok(e, *needles) -> str:
     return ""
 
 
+REPORT_TEXT = [False]   # (set by checks/c15.py: append a digest of the full message of every rejection that names no dtype / type)
+
+
 def show_report(e) -> str:
     E = dltype
+    if REPORT_TEXT[0] and isinstance(e, (E.DLTypeNDimsError, E.DLTypeShapeError, E.DLTypeInvalidReferenceError, E.DLTypeDuplicateError)):
+        REPORT_TEXT[0] = False
+        try:
+            return show_report(e) + " text=" + str(e).replace("\t", " ").replace("\n", " ")
+        finally:
+            REPORT_TEXT[0] = True
     if isinstance(e, E.DLTypeNDimsError):
         return f"reject ndims tensor={e._tensor_name} expected={e._expected} actual={e._actual}" + _msg_ok(e, f"tensor={e._tensor_name}", f"ndims={e._expected}", f"actual={e._actual}")
     if isinstance(e, E.DLTypeDtypeError):
@@ -344,6 +363,26 @@ def handle(line: str) -> str:
         return h(*f[1:])
     except Exception as e:  # noqa: BLE001  (the harness must survive whatever the tree under test does)
         return "harness-error " + type(e).__name__ + ": " + str(e)[:80]
+
+
+def fresh_process(lines: list[str], timeout: int = 300) -> list[str] | None:
+    """the same operation lines in ONE new interpreter (same tree under test, nothing else has run in it): what process-wide caches
+    (typing's, functools.lru_cache, module-level tables) hold from earlier operations of this process cannot reach it"""
+    import os
+    import subprocess
+    import sys
+
+    here = os.path.dirname(os.path.abspath(__file__))
+    code = ("import sys, warnings\nwarnings.simplefilter('ignore')\nsys.path.insert(0, %r)\nimport impl\n"
+            "for m in ('impl_call', 'impl_hist', 'impl_pyd', 'impl_sym'):\n    __import__(m)\n"
+            "for l in sys.stdin.read().split('\\n'):\n    if l:\n        print('OUT\\t' + impl.handle(l).replace('\\n', ' '), flush=True)\n") % here
+    env = {k: v for k, v in os.environ.items() if k not in ("DLTYPE_VERIF_HEARTBEAT", "DLTYPE_VERIF_IMPL_LINES")}
+    try:
+        r = subprocess.run([sys.executable, "-c", code], input="\n".join(lines) + "\n", text=True, capture_output=True, timeout=timeout, env=env)
+    except subprocess.TimeoutExpired:
+        return None
+    outs = [l[4:] for l in r.stdout.splitlines() if l.startswith("OUT\t")]
+    return outs if len(outs) == len(lines) else None
 
 
 def run_impl(lines: list[str]) -> list[str]:
